@@ -46,7 +46,7 @@ func NewWatcher(root string) (*Watcher, error) {
 }
 
 func (w *Watcher) add(dir string) error {
-	wd, err := unix.InotifyAddWatch(w.fd, dir, unix.IN_CREATE|unix.IN_DELETE|unix.IN_MOVED_FROM|unix.IN_MOVED_TO|unix.IN_ONLYDIR)
+	wd, err := unix.InotifyAddWatch(w.fd, dir, unix.IN_CREATE|unix.IN_DELETE|unix.IN_MOVED_FROM|unix.IN_MOVED_TO|unix.IN_MODIFY|unix.IN_ONLYDIR)
 	if err != nil {
 		return err
 	}
@@ -87,6 +87,8 @@ func (w *Watcher) Drain() []Event {
 				if e.Dir {
 					w.add(filepath.Join(w.root, p))
 				}
+			case ev.Mask&unix.IN_MODIFY != 0:
+				e.Op = "modify" // content written (or truncated) through this name
 			case ev.Mask&unix.IN_DELETE != 0:
 				e.Op = "delete"
 			case ev.Mask&unix.IN_MOVED_FROM != 0:
